@@ -1473,7 +1473,8 @@ class Server:
     @ConnectionConditions(ConnectionConditions.login_required)
     async def pasv(self, connection, rest):
         async def handler(reader, writer):
-            if connection.future.data_connection.done():
+            if connection.future.data_connection.done() or not connection.passive_server.is_serving():
+                # second connection, or the session was closed meanwhile
                 writer.close()
             else:
                 connection.data_connection = ThrottleStreamIO(
@@ -1518,7 +1519,8 @@ class Server:
     @ConnectionConditions(ConnectionConditions.login_required)
     async def epsv(self, connection, rest):
         async def handler(reader, writer):
-            if connection.future.data_connection.done():
+            if connection.future.data_connection.done() or not connection.passive_server.is_serving():
+                # second connection, or the session was closed meanwhile
                 writer.close()
             else:
                 connection.data_connection = ThrottleStreamIO(
